@@ -7,8 +7,11 @@
     in drum mode: letter index (`a`..`h` = 0..7) + accidental + drum base;
   * written duration: `measure / n`, `:frames`, or the default length, plus the dot series
     `d/2 + d/4 + …`; shuffle adds `+s, −s, +s, …` to successive notes, ties, rests and echoes;
-  * key-on time of a note that is not edited afterwards: `d·Q/8` (quantise) or `d − q`, at least
-    1 (early release);
+  * key-on time of every sounding note, taken over the WHOLE extended note (the note with its ties
+    `^`, slur `&`, reverse rests `R` and the borrow of a grace note `~`): `total·Q/8` (quantise)
+    or `total − q`, at least 1 (early release), legato = the whole duration; as a sum over the
+    NOTE/TIE events the note is recorded in, whatever the split.  See `Item` for the few places
+    where mml_ref.md leaves a choice (an interval is admitted there) — no note is exempt;
   * total duration: the sum of the written durations minus the reverse rests (a grace note
     borrows its length from the note before it);
   * the echo macro replays the note written `delay` notes/rests ago between `VOL_REL −v` and
@@ -16,8 +19,8 @@
   * key signatures by the circle of fifths (sharps F C G D A E B, flats B E A D G C F).
 
   `exact = false` marks texts outside the domain in which this arithmetic is meant literally
-  (16-bit overflow, zero lengths, shuffle larger than a duration, reverse rests that are not
-  directly behind a sufficiently long note or rest, parameters outside their documented range):
+  (16-bit overflow, zero lengths, shuffle larger than a duration, reverse rests longer than the
+  last written duration or across a loop command, parameters outside their documented range):
   the judge skips them and only the model/implementation correspondence speaks there.
 
   Nothing here refers to Model/*.  Event type numbers come from the regenerated tables.
@@ -182,6 +185,18 @@ def scaleSig (k : Int) (l : Nat) : Int :=
 inductive Art | quant (n : Nat) | early (n : Nat)
   deriving DecidableEq, Repr
 
+/-- what a following `^`, `&`, `R` or `~` acts on -/
+inductive Cur
+  /-- nothing timed has been written yet -/
+  | none
+  /-- the newest group of `Expected.timed`: a note, possibly already tied / slurred / shortened -/
+  | group
+  /-- a rest (or an echo that replayed a rest) -/
+  | rest
+  /-- a tie that had no note to extend (`Timed.free`) -/
+  | free
+  deriving DecidableEq, Repr
+
 structure St where
   octave : Int := trackDefaultOctave + 1      -- the number one would write after `o`
   measure : Nat := trackDefaultMeasureLen
@@ -193,29 +208,90 @@ structure St where
   echoDelay : Nat := 0
   echoVol : Int := 0
   memory : List Int := []         -- pitches of the notes written so far, newest first; 0 = rest
-  /-- length of the event a reverse rest directly behind the last command could shorten:
-  `some (d, isNote)` right after a note or rest command, `none` otherwise -/
-  last : Option (Nat × Bool) := none
-  /-- running length of the current tied group -/
-  group : Nat := 0
+  cur : Cur := .none
+  /-- duration written by the last timed command (note, tie, rest, echo, grace), less what reverse
+  rests have already taken from it: how far a reverse rest is certain to reach -/
+  reach : Nat := 0
+  /-- a command that is recorded as an event of its own (`v @ p [ ] …`, drum mode, the slur mark, the
+  volume restore of an echo) has been written since the last timed command -/
+  sep : Bool := false
+  /-- … and one of them was a loop / loop point / call command (`[ / ] L *`) -/
+  loopSep : Bool := false
   deriving Repr
 
-/-- a sounding note: pitch, written duration (shuffle included), prescribed key-on time, and
-whether no later command edits it (so that its event must show exactly `on`, `dur − on`) -/
+/-- A sounding note TOGETHER WITH everything written behind it that lengthens or shortens it —
+ties `^` (directly behind the note or behind other non-timed commands), the slur `&`, reverse
+rests `R` and the borrow of a following grace note `~`: the "extended note".  The events the
+builder records for it are one NOTE followed by any number of TIE events and of REST events
+(a tie may be recorded as silence); other events may lie in between.  Prescribed are
+
+  * `dur`: Σ (on + off) over these events — the written durations added up, reverse rests and
+    borrows subtracted;
+  * `onLo ≤ Σ on ≤ onHi` over the NOTE and TIE events: the total key-on time.  mml_ref.md: "`^`
+    Tie. Extends duration of previous note", "`Q<1..8>` Quantize … Note length is param/8",
+    "`q` … early release cannot exceed note length, in that case it will be note length − 1": the
+    rule is applied ONCE to the whole extended note (`total·Q/8`, or `total − q` with the floor
+    of 1), not to the pieces it happens to be recorded in.
+
+  Where mml_ref.md does not decide, the interval is wider than a point and says only what is
+  documented (the code's choice lies inside in each case):
+  * WHICH quantise / early-release value applies when `Q`/`q` is changed between the note and
+    its last tie is not said.  The code re-articulates the whole note at every tie with the
+    value in force at that tie; the note command itself used the value in force then.  Both
+    readings are admitted: `onLo/onHi` = min/max of the rule under the setting at the note and
+    under the setting at the last tie (a point when they agree).
+  * `&` "connects two notes (legato)": the slurred note is keyed on for its whole duration
+    (`onLo = onHi = dur`).  Whether a slur reaches its note across `[ / ] L *` is not said (the
+    code refuses across `]` and `L` with a warning): then `onHi = dur`, `onLo` stays.  A tie
+    written behind a slur (`c & ^`) is not described either: the rule on the new total up to
+    the whole new total is admitted.
+  * `R` "subtracts the value from the previous note or rest", `~` "subtracts from the length of
+    the previous note like the `R` command": the duration shrinks by the amount, but nothing is
+    said about the key-on time of the shortened note.  Admitted: at least what a note WRITTEN
+    with the shortened length would get, at most what the unshortened note had, never more than
+    the new duration: `[min(onLo, rule(dur − R)), min(onHi, dur − R)]` (the code cuts the silent
+    part first, which is the upper end).
+  * a tie that follows a REST (`c r ^`) — "extends the previous note" across a rest — has no
+    documented meaning: its duration is required (`Timed.free`: TIE or REST events of that
+    length), the note before the rest keeps its duration and is only required to be keyed on
+    for at most `dur` ticks (and, like every NOTE event, for at least one: the judge's `sanity`).
+
+`plain` = not edited after the note command (wording of failures only); `afterSep` = the group
+has a tie or slur written AFTER one of its ties that stood behind another event-recording command
+(`c v5 ^ ^`, `c v5 ^ &`): the builder keeps no record of an extended note as a whole, see the
+known finding `sep_tie` in known_findings.txt. -/
 structure Item where
   pitch : Int
   dur : Nat
-  on : Nat
-  plain : Bool
+  onLo : Nat
+  onHi : Nat
+  /-- articulation in force at the note command -/
+  art0 : Art
+  plain : Bool := true
+  slurred : Bool := false
+  hadSep : Bool := false
+  afterSep : Bool := false
+  deriving DecidableEq, Repr
+
+/-- what the timed events (NOTE, TIE, REST) of a track must add up to, in order -/
+inductive Timed
+  /-- an extended note: one NOTE, then TIE / REST events up to `dur` -/
+  | group (it : Item)
+  /-- REST events of this total length (none when a reverse rest took all of it) -/
+  | rest (dur : Nat)
+  /-- a tie with no note to extend (first thing on a track, or behind a rest): TIE or REST events
+  of this total length; the reference does not say what it means -/
+  | free (dur : Nat)
   deriving DecidableEq, Repr
 
 structure Expected where
-  items : List Item := []
+  timed : List Timed := []
   /-- every event that is not a NOTE, REST or TIE, in order: (type, parameter) -/
   controls : List (Nat × Int) := []
   total : Int := 0
   exact : Bool := true
   deriving Repr
+
 
 def dotted (d : Nat) : Nat → Nat → Nat
   | 0, _ => d
@@ -226,10 +302,12 @@ def durTicks (σ : St) : Dur → Option Nat
   | .len n k => if n.v ≥ 1 then some (dotted (σ.measure / n.v.toNat) k (σ.measure / n.v.toNat / 2)) else none
   | .frames n k => if n.v ≥ 0 then some (dotted n.v.toNat k (n.v.toNat / 2)) else none
 
-def onRule (σ : St) (d : Nat) : Nat :=
-  match σ.art with
+def ruleOf (a : Art) (d : Nat) : Nat :=
+  match a with
   | .quant n => d * n / 8
   | .early q => if q ≥ d then 1 else d - q
+
+def onRule (σ : St) (d : Nat) : Nat := ruleOf σ.art d
 
 def accSig (σ : St) (l : Nat) : Acc → Int
   | .none => if σ.drum = 0 then σ.key.getD (l % 8) 0 else 0
@@ -244,11 +322,80 @@ def pitchOf (σ : St) (l : Nat) (a : Acc) : Int :=
 def inI16 (v : Int) : Bool := -32768 ≤ v && v ≤ 32767
 def inU16 (v : Int) : Bool := 0 ≤ v && v ≤ 65535
 
-/-- the last note is edited by this command: it is no longer `plain` -/
-def touch (items : List Item) : List Item :=
-  match items.reverse with
+/-- apply `f` to the newest element -/
+def modLast (f : Timed → Timed) (l : List Timed) : List Timed :=
+  match l.reverse with
   | [] => []
-  | i :: rest => (({ i with plain := false }) :: rest).reverse
+  | x :: rest => (f x :: rest).reverse
+
+def modNewestGroup (f : Item → Item) : List Timed → List Timed
+  | [] => []
+  | .group it :: rest => .group (f it) :: rest
+  | x :: rest => x :: modNewestGroup f rest
+
+/-- apply `f` to the newest extended note, whatever has been written since -/
+def modLastGroup (f : Item → Item) (l : List Timed) : List Timed := (modNewestGroup f l.reverse).reverse
+
+def Timed.dur : Timed → Nat
+  | .group it => it.dur
+  | .rest d => d
+  | .free d => d
+
+def lastDur (l : List Timed) : Nat := (l.getLast?.map Timed.dur).getD 0
+
+def lastGroupDur (l : List Timed) : Nat :=
+  ((l.reverse.findSome? fun | .group it => some it.dur | _ => none)).getD 0
+
+/-- a tie of `dd` ticks extends the note: the rule applies to the new total (see `Item`) -/
+def Item.tie (σ : St) (it : Item) (dd : Nat) : Item :=
+  let total := it.dur + dd
+  let a := ruleOf it.art0 total
+  let b := ruleOf σ.art total
+  { it with dur := total, plain := false, slurred := false,
+            onLo := min a b, onHi := if it.slurred then total else max a b,
+            afterSep := it.afterSep || it.hadSep, hadSep := it.hadSep || σ.sep }
+
+/-- a slur behind the note: legato -/
+def Item.slur (σ : St) (it : Item) : Item :=
+  if σ.loopSep then { it with plain := false, onHi := it.dur, afterSep := it.afterSep || it.hadSep }
+  else { it with plain := false, slurred := true, onLo := it.dur, onHi := it.dur, afterSep := it.afterSep || it.hadSep }
+
+/-- a reverse rest / the borrow of a grace note takes `dd` ticks from the note -/
+def Item.shorten (σ : St) (it : Item) (dd : Nat) : Item :=
+  let total := it.dur - dd
+  { it with dur := total, plain := false,
+            onLo := if it.slurred then total else min (min it.onLo total) (ruleOf σ.art total),
+            onHi := min it.onHi total }
+
+/-- a tie behind a rest may have reached this note: only key-on ≤ duration is left (that a NOTE
+event is keyed on for at least one tick is checked on every NOTE event by the judge: `sanity`, D6a) -/
+def Item.loosen (it : Item) : Item :=
+  { it with plain := false, slurred := false, onLo := 0, onHi := it.dur }
+
+def Timed.shorten (σ : St) (dd : Nat) : Timed → Timed
+  | .group it => .group (it.shorten σ dd)
+  | .rest d => .rest (d - dd)
+  | .free d => .free (d - dd)
+
+def Timed.onGroup (f : Item → Item) : Timed → Timed
+  | .group it => .group (f it)
+  | x => x
+
+/-- may a reverse rest of `dd` ticks be written here?  mml_ref.md: "subtracts the value from the
+previous note or rest … if unable (such as if the previous note was at the end of a loop), a
+warning is issued" — certain is only: less than what the last timed command wrote (all of it,
+for a rest), and not across a loop command -/
+def canReverse (σ : St) (dd : Nat) : Bool :=
+  dd ≥ 1 && dd ≤ 65535 && !σ.loopSep &&
+  match σ.cur with
+  | .group => dd < σ.reach
+  | .free => dd < σ.reach
+  | .rest => dd ≤ σ.reach
+  | .none => false
+
+/-- state after a timed command that wrote `dd` ticks onto `cur` -/
+def timedSt (σ : St) (cur : Cur) (dd : Nat) (sep : Bool := false) : St :=
+  { σ with shuffle := -σ.shuffle, cur := cur, reach := dd, sep := sep, loopSep := false }
 
 /-- written duration of a timed command after shuffle; `none` = outside the literal domain -/
 def shuffled (σ : St) (d : Option Nat) : Option Nat :=
@@ -260,28 +407,47 @@ def flip (σ : St) : St := { σ with shuffle := -σ.shuffle }
 
 def setKey (key : List Int) (l : Nat) (v : Int) : List Int := key.set (l % 8) v
 
+def isLoopCmd : Simple → Bool
+  | .loopStart | .loopBreak | .loopEnd | .segno | .call => true
+  | _ => false
+
 def step (σ : St) (e : Expected) : Cmd → St × Expected
   | .note l a d =>
     match shuffled σ (durTicks σ d) with
     | none => (σ, { e with exact := false })
     | some dd =>
       let p := pitchOf σ l a
-      let it : Item := { pitch := p, dur := dd, on := onRule σ dd, plain := true }
-      ({ flip σ with memory := p :: σ.memory, last := some (dd, true), group := dd },
-       { e with items := e.items ++ [it], total := e.total + dd, exact := e.exact && inI16 p && l < 8 && p != 0 })
+      let it : Item := { pitch := p, dur := dd, onLo := onRule σ dd, onHi := onRule σ dd, art0 := σ.art }
+      ({ timedSt σ .group dd with memory := p :: σ.memory },
+       { e with timed := e.timed ++ [.group it], total := e.total + dd, exact := e.exact && inI16 p && l < 8 && p != 0 })
   | .rest d =>
     match shuffled σ (durTicks σ d) with
     | none => (σ, { e with exact := false })
     | some dd =>
-      ({ flip σ with memory := 0 :: σ.memory, last := some (dd, false), group := σ.group },
-       { e with total := e.total + dd })
+      ({ timedSt σ .rest dd with memory := 0 :: σ.memory },
+       { e with timed := e.timed ++ [.rest dd], total := e.total + dd })
   | .tie d =>
     match shuffled σ (durTicks σ d) with
     | none => (σ, { e with exact := false })
     | some dd =>
-      ({ flip σ with last := none, group := σ.group + dd },
-       { e with items := touch e.items, total := e.total + dd, exact := e.exact && σ.group + dd ≤ 65535 })
-  | .slur => ({ σ with last := none }, { e with items := touch e.items, controls := e.controls ++ [(ev_SLUR, 0)] })
+      match σ.cur with
+      | .group =>
+        (timedSt σ .group dd,
+         { e with timed := modLast (Timed.onGroup fun it => it.tie σ dd) e.timed, total := e.total + dd,
+                  exact := e.exact && lastDur e.timed + dd ≤ 65535 })
+      | .free =>
+        (timedSt σ .free dd,
+         { e with timed := modLast (fun | .free t => .free (t + dd) | x => x) e.timed, total := e.total + dd,
+                  exact := e.exact && lastDur e.timed + dd ≤ 65535 })
+      | _ =>
+        -- behind a rest, or nothing: no documented meaning (see `Item`)
+        (timedSt σ .free dd,
+         { e with timed := modLastGroup Item.loosen e.timed ++ [.free dd], total := e.total + dd,
+                  exact := e.exact && lastGroupDur e.timed + dd ≤ 65535 })
+  | .slur =>
+    ({ σ with sep := true },
+     { e with timed := if σ.cur = .group then modLast (Timed.onGroup fun it => it.slur σ) e.timed else e.timed,
+              controls := e.controls ++ [(ev_SLUR, 0)] })
   | .octave n => ({ σ with octave := n.v }, { e with exact := e.exact && -100 ≤ n.v && n.v ≤ 100 })
   | .octUp => ({ σ with octave := σ.octave + 1 }, e)
   | .octDown => ({ σ with octave := σ.octave - 1 }, e)
@@ -296,28 +462,29 @@ def step (σ : St) (e : Expected) : Cmd → St × Expected
     else if n.v = 0 then ({ σ with art := .quant 8 }, e)
     else (σ, { e with exact := false })
   | .revRest d =>
-    match durTicks σ d, σ.last with
-    | some dd, some (len, isNote) =>
-      if dd ≥ 1 ∧ dd ≤ 65535 ∧ (dd < len ∨ (!isNote ∧ dd ≤ len)) then
-        ({ flip σ with last := none }, { e with items := touch e.items, total := e.total - dd })
+    match durTicks σ d with
+    | some dd =>
+      if canReverse σ dd then
+        ({ flip σ with reach := σ.reach - dd },
+         { e with timed := modLast (Timed.shorten σ dd) e.timed, total := e.total - dd })
       else (σ, { e with exact := false })
-    | _, _ => (σ, { e with exact := false })
+    | none => (σ, { e with exact := false })
   | .grace l a d =>
-    match durTicks σ d, σ.last with
-    | some dd, some (len, isNote) =>
+    match durTicks σ d with
+    | some dd =>
       -- the borrow is the written length; the grace note itself is shuffled like any note
       let σr := flip σ
       match shuffled σr (some dd) with
       | none => (σ, { e with exact := false })
       | some dn =>
-        if dd ≥ 1 ∧ dd ≤ 65535 ∧ (dd < len ∨ (!isNote ∧ dd ≤ len)) then
+        if canReverse σ dd then
           let p := pitchOf σ l a
-          let it : Item := { pitch := p, dur := dn, on := onRule σ dn, plain := true }
-          ({ flip σr with memory := p :: σ.memory, last := some (dn, true), group := dn },
-           { e with items := touch e.items ++ [it], total := e.total - dd + dn,
+          let it : Item := { pitch := p, dur := dn, onLo := onRule σ dn, onHi := onRule σ dn, art0 := σ.art }
+          ({ timedSt σr .group dn with memory := p :: σ.memory },
+           { e with timed := modLast (Timed.shorten σ dd) e.timed ++ [.group it], total := e.total - dd + dn,
                     exact := e.exact && inI16 p && l < 8 && p != 0 })
         else (σ, { e with exact := false })
-    | _, _ => (σ, { e with exact := false })
+    | none => (σ, { e with exact := false })
   | .measure n =>
     if 1 ≤ n.v ∧ n.v ≤ 65535 then ({ σ with measure := n.v.toNat }, e) else (σ, { e with exact := false })
   | .shuffle n =>
@@ -333,13 +500,15 @@ def step (σ : St) (e : Expected) : Cmd → St × Expected
       let pre := if σ.echoVol ≠ 0 then [(ev_VOL_REL, -σ.echoVol)] else []
       let post := if σ.echoVol ≠ 0 then [(ev_VOL_REL, σ.echoVol)] else []
       let p : Int := if σ.echoDelay = 0 then 0 else σ.memory.getD (σ.echoDelay - 1) 0
+      -- the volume restore is recorded behind the replayed note / rest
+      let sep : Bool := σ.echoVol ≠ 0
       if p = 0 then
-        ({ flip σ with last := some (dd, false) },
-         { e with controls := e.controls ++ pre ++ post, total := e.total + dd })
+        (timedSt σ .rest dd sep,
+         { e with timed := e.timed ++ [.rest dd], controls := e.controls ++ pre ++ post, total := e.total + dd })
       else
-        let it : Item := { pitch := p, dur := dd, on := onRule σ dd, plain := true }
-        ({ flip σ with last := if σ.echoVol ≠ 0 then none else some (dd, true), group := dd },
-         { e with items := e.items ++ [it], controls := e.controls ++ pre ++ post, total := e.total + dd })
+        let it : Item := { pitch := p, dur := dd, onLo := onRule σ dd, onHi := onRule σ dd, art0 := σ.art }
+        (timedSt σ .group dd sep,
+         { e with timed := e.timed ++ [.group it], controls := e.controls ++ pre ++ post, total := e.total + dd })
   | .keyScale name =>
     match fifths name with
     | some k => ({ σ with key := (List.range 8).map (scaleSig k) }, e)
@@ -349,10 +518,10 @@ def step (σ : St) (e : Expected) : Cmd → St × Expected
      { e with exact := e.exact && !gs.isEmpty && gs.all (fun g => g.2.all (· < 8)) })
   | .drum n =>
     if inU16 n.v ∧ n.v ≤ 32767 then
-      ({ σ with drum := n.v.toNat, last := none }, { e with controls := e.controls ++ [(ev_DRUM_MODE, n.v)] })
+      ({ σ with drum := n.v.toNat, sep := true }, { e with controls := e.controls ++ [(ev_DRUM_MODE, n.v)] })
     else (σ, { e with exact := false })
   | .simple s n =>
-    let σ' := { σ with last := none }
+    let σ' := { σ with sep := true, loopSep := σ.loopSep || isLoopCmd s }
     let need (ty : Nat) : St × Expected :=
       match n with
       | some n => (σ', { e with controls := e.controls ++ [(ty, n.v)], exact := e.exact && inI16 n.v })
